@@ -264,6 +264,12 @@ class Region(object):
         if k in ("block", "multi"):
             for x in s.body:
                 self.walk(x, env, ctx)
+                if x.k == "if" and x.els is None and _escapes(x.then) and not cfront.is_zero_lit(x.cond):
+                    # 'if (c) continue;' : the rest of the block runs only when c is false
+                    ctx = dict(ctx, guards=ctx["guards"] + conj(x.cond, False))
+                if x.k == "while" and not _has_own_break(x.body):
+                    # normal exit of 'while (c)' : c is false
+                    ctx = dict(ctx, guards=ctx["guards"] + conj(x.cond, False))
         elif k == "decl":
             self.local_decls.add(s.var.decl)
             if s.init is not None:
@@ -362,8 +368,14 @@ class Region(object):
         self.walk(s.body, env, c1)
         self.havoc(env, names | {iv})
 
+    sequential = False
+
     def nested(self, s, env, ctx):
         name = s.name
+        if self.sequential:
+            # whole-function sequential view (coverage / bounds): directives are transparent
+            self.walk(s.body, env, ctx)
+            return
         if name == "simd":
             # inner simd loop: sequential inner loop of the enclosing iteration
             self.walk(s.body, env, ctx)
@@ -896,6 +908,33 @@ def stmt_e(stmt, e):
     return e
 
 
+def _has_own_break(s):
+    """a break that leaves the loop whose body is s (not one of a nested loop)"""
+    if s is None:
+        return False
+    if s.k == "break":
+        return True
+    if s.k in ("for", "while", "do"):
+        return False
+    if s.k == "goto":
+        return True
+    for c in _children(s):
+        if _has_own_break(c):
+            return True
+    return False
+
+
+def _escapes(s):
+    """statement always leaves the enclosing block (continue / break / return / goto as last statement)"""
+    if s is None:
+        return False
+    if s.k in ("continue", "break", "return", "goto"):
+        return True
+    if s.k == "block" and s.body:
+        return _escapes(s.body[-1])
+    return False
+
+
 def conj(cond, pol):
     """condition -> list of (text, polarity, names) guards implied on that branch"""
     out = []
@@ -908,7 +947,17 @@ def conj(cond, pol):
     if cond.k == "un" and cond.op == "!":
         return conj(cond.a[0], not pol)
     names = frozenset(x.name for x in ewalk(cond) if x.k == "var")
-    out.append((estr(cond), pol, names))
+    # truthiness normal form: (X == 0) is 'not X', (X != 0) is 'X'
+    c = cond
+    while c.k == "cast":
+        c = c.a[0]
+    if c.k == "bin" and c.op in ("==", "!=") and ((c.a[1].k == "int" and c.a[1].val == 0) or (c.a[0].k == "int" and c.a[0].val == 0)):
+        inner = c.a[0] if c.a[1].k == "int" else c.a[1]
+        while inner.k == "cast":
+            inner = inner.a[0]
+        out.append((estr(inner), pol if c.op == "!=" else (not pol), names))
+        return out
+    out.append((estr(c), pol, names))
     return out
 
 
@@ -1143,3 +1192,15 @@ def _ordinal(func, d):
             if s is d:
                 return n
     return 0
+
+
+def collect_accesses(func, tus, stmt=None):
+    """sequential walk of a whole function (or one statement of it): every array access with its index
+    polynomial, enclosing loop ranges and guards.  OpenMP directives are transparent."""
+    fake = S("omp", name="none", clauses=[], body=stmt if stmt is not None else func.body, line=func.line)
+    r = Region(func, fake, tus)
+    r.sequential = True
+    env = {}
+    ctx = dict(ranges={}, guards=[], critical=False, ws=None, line=func.line, rtext={})
+    r.walk(fake.body, env, ctx)
+    return r
